@@ -306,7 +306,7 @@ func (a *Agent) gatherCandidatesInternal(ctx context.Context) {
 		case CandidateTypeHost:
 			wg.Add(1)
 			go func() {
-				a.gatherCandidatesLocal(ctx, a.networkTypes)
+				a.gatherCandidatesLocal(ctx, configuredNetworkTypes(a.networkTypes))
 				wg.Done()
 			}()
 		case CandidateTypeServerReflexive:
@@ -331,9 +331,9 @@ func (a *Agent) gatherServerReflexiveCandidates(ctx context.Context, wg *sync.Wa
 		wg.Add(1)
 		go func() {
 			if a.udpMuxSrflx != nil {
-				a.gatherCandidatesSrflxUDPMux(ctx, a.gatherURLs(ctx), a.networkTypes)
+				a.gatherCandidatesSrflxUDPMux(ctx, a.gatherURLs(ctx), configuredNetworkTypes(a.networkTypes))
 			} else {
-				a.gatherCandidatesSrflx(ctx, a.gatherURLs(ctx), a.networkTypes)
+				a.gatherCandidatesSrflx(ctx, a.gatherURLs(ctx), configuredNetworkTypes(a.networkTypes))
 			}
 			wg.Done()
 		}()
@@ -341,7 +341,7 @@ func (a *Agent) gatherServerReflexiveCandidates(ctx context.Context, wg *sync.Wa
 	if a.addressRewriteMapper != nil && a.addressRewriteMapper.hasCandidateType(CandidateTypeServerReflexive) {
 		wg.Add(1)
 		go func() {
-			a.gatherCandidatesSrflxMapped(ctx, a.networkTypes)
+			a.gatherCandidatesSrflxMapped(ctx, configuredNetworkTypes(a.networkTypes))
 			wg.Done()
 		}()
 	}
